@@ -91,6 +91,8 @@ def extra(chk, st):
     p_dupadapt.stage(chk, "C15")
     import p_transfail
     p_transfail.stage(chk, "C15")
+    import p_closedfd
+    p_closedfd.stage(chk, "C15")
     # failed registrations at the level of Generic (shared fds -> EEXIST): nothing changes, and the registration can be retried
     p_c16.genlife(chk, st, prop="C15")
 
@@ -109,6 +111,9 @@ def replay(path):
     if "dupadapt case" in open(path).read():
         import p_dupadapt
         return p_dupadapt.replay(path)
+    if "closedfd case" in open(path).read():
+        import p_closedfd
+        return p_closedfd.replay(path)
     if "transfail case" in open(path).read():
         import p_transfail
         return p_transfail.replay(path)
